@@ -138,7 +138,7 @@ class Proxy(object):
 class PathState(object):
     """State of the path being executed.  Created by Explorer for each path."""
 
-    def __init__(self, explorer, keys, model, raw_ok=0):
+    def __init__(self, explorer, keys, model, raw_ok=None):
         ex = explorer
         self.ex = ex
         self.model = model          # z3 model satisfying the pre-loaded literals (None for roots)
@@ -146,8 +146,8 @@ class PathState(object):
         self.created = {}           # id -> obj for objects created on this path
         self.inputs = {}            # name -> z3 var (harness inputs, for concretisation)
         self.depth = 0              # interpreted call depth
-        self.n_raw = 0
-        self.raw_ok = raw_ok
+        self.raw_ok = raw_ok if raw_ok is not None else frozenset()   # ids of lemmas the stored model satisfies
+        self.raw_seen = []
         self.decided = {}
         self.memo = {}
         self.shadow = {}            # id(real dict) -> (real dict, path-local SymDict) for dicts written by interpreted code
@@ -216,9 +216,11 @@ class PathState(object):
         if cid not in ex.raw_done:
             ex.raw_done[cid] = cond
             _assert(self.solver, cond)
-        self.n_raw += 1
-        if self.n_raw <= self.raw_ok:
-            return      # already satisfied by the model stored with this path
+        if cid in self.raw_ok:
+            return      # already satisfied by the model stored with this path (same lemma, by identity:
+                        # a positional count is unsound, re-execution may build a structurally different lemma)
+        ex.raw_keep.setdefault(cid, cond)
+        self.raw_seen.append(cid)
         if self.model_valid:
             if not z3.is_true(self.model.eval(cond, model_completion=True)):
                 self.model_valid = False
@@ -330,7 +332,7 @@ class PathState(object):
         other_ast = px.nb_ast if d else px.b_ast
         r = self._check(other_ast)
         if r == z3.sat:
-            ex.push_work(self.keys + [-k1 if d else k1], self.solver.model(), self.n_raw)
+            ex.push_work(self.keys + [-k1 if d else k1], self.solver.model(), self.raw_ok.union(self.raw_seen))
         elif r == z3.unsat:
             core = ex.core_keys(other_ast)
             if core is not None:
@@ -373,6 +375,7 @@ class Explorer(object):
         self.by_ast = {}           # literal ast id -> signed key
         self.learned = {}          # signed key (infeasible literal) -> [frozenset(signed keys)]
         self.raw_done = {}
+        self.raw_keep = {}         # id -> lemma, never cleared (keeps ids stable)
         self.gen = 0
         self.n_defs = 0
         self.stats = Stats()
@@ -451,8 +454,8 @@ class Explorer(object):
         self.n_defs = 0
         self.raw_done = {}
 
-    def push_work(self, keys, model, n_raw=0):
-        self.work.append((keys, model, n_raw))
+    def push_work(self, keys, model, raw_ok=None):
+        self.work.append((keys, model, raw_ok))
 
     def note_inconclusive(self, why):
         if len(self.inconclusive) < 50:
@@ -471,9 +474,9 @@ class Explorer(object):
         if self.max_seconds is not None:
             self.deadline = t0 + self.max_seconds
         if self.prefix_roots:
-            self.work = [(self.import_keys(p), None, 0) for p in self.prefix_roots]
+            self.work = [(self.import_keys(p), None, None) for p in self.prefix_roots]
         else:
-            self.work = [([], None, 0)]
+            self.work = [([], None, None)]
         while self.work:
             if self.max_paths is not None and self.stats.paths >= self.max_paths:
                 self.truncated = True
